@@ -61,9 +61,33 @@ def run_blocked(case) -> dict:
 
     def nxt(k):
         if k == depth:
-            return leaf()
+            return leaf_shared() if leaf_style == 7 else leaf_freevar() if leaf_style == 8 else leaf()
         else:
             level(k + 1)
+
+    # frames whose code object lists one NAME in two of co_varnames / co_cellvars / co_freevars (3.12 inlines comprehensions):
+    # the number of slots in front of the value stack is not the number of distinct names
+    def leaf_shared():
+        started.set()
+        rows = [1, 2, 3]
+        for m in rows:                      # m: an ordinary local ...
+            pass
+        shared = [m for m in rows if any(o is m for o in rows)]      # ... and a comprehension variable captured by a genexpr (a cell)
+        leaf_mgrs.extend([M(), M()])
+        with leaf_mgrs[0] as a, leaf_mgrs[1]:
+            lk.acquire(True, 20)
+        return shared
+
+    def leaf_freevar():
+        started.set()
+        both = [depth for depth in (1, 2)] + [depth]     # depth: a free variable of this function and an inlined comprehension's variable
+        leaf_mgrs.extend([M(), M()])
+        with leaf_mgrs[0] as a, leaf_mgrs[1]:
+            lk.acquire(True, 20)
+        return both
+
+    leaf_shared.__code__ = leaf_shared.__code__.replace(co_name="leaf")
+    leaf_freevar.__code__ = leaf_freevar.__code__.replace(co_name="leaf")
 
     def leaf():
         # the innermost Python frame blocks in a C-level call (its stack pointer is not saved: the value stack is trimmed
@@ -255,7 +279,7 @@ class C07(PropCheck):
         out = []
         for depth in range(0, 7 if tier == "thorough" else 5):
             for _ in range(2 if tier == "quick" else 6):
-                out.append({"k": "blocked", "depth": depth, "nest": [rng.randint(0, 3) for _ in range(depth + 1)], "leaf": len(out) % 7})
+                out.append({"k": "blocked", "depth": depth, "nest": [rng.randint(0, 3) for _ in range(depth + 1)], "leaf": len(out) % 9})
         scheds: List[dict] = [{}]
         for r in range(0, 14):
             for a in range(1, 5):
@@ -296,6 +320,17 @@ class C07(PropCheck):
                     self._probs.append(f"schedule {r['schedule']}: extract(thread) reported frames of other threads: {ex['foreign']}")
                 elif ex.get("error"):
                     self._probs.append(f"schedule {r['schedule']}: extract(parked thread) has error {ex['error']}")
+                for mode in ("default", "error"):
+                    exr = r.get("extract_racing_" + mode, {})
+                    if "raised" in exr:
+                        self._probs.append(f"schedule {r['schedule']}: extract(thread) while the target races "
+                                           f"(InspectionWarning filter: {mode}) RAISED {exr['raised']}")
+                    elif exr and exr.get("names", [])[:5][-2:] != ["body", "target_program"]:
+                        # a rejected snapshot costs the frame its context information, not the frame: the thread's frames down to
+                        # the racing one (they stay on its stack throughout) are still reported
+                        self._probs.append(f"schedule {r['schedule']}: extract(thread) while the target races (InspectionWarning filter: "
+                                           f"{mode}) reports frames {exr.get('names')} (error {exr.get('error')}): the thread's own "
+                                           f"frames down to target_program are missing")
                 if kind == "snapshot" and r.get("blocks") != r.get("expected_blocks"):
                     self._probs.append(f"schedule {r['schedule']}: the handler blocks {r.get('blocks')} are not those of the position the "
                                        f"snapshot was taken at ({r.get('expected_blocks')})")
